@@ -61,11 +61,12 @@ def spellings(a, b, period_ns):
 
 
 OPS = {'once_t': '(once%s(x))', 'historically_t': '(historically%s(x))', 'since_t': '((x) since%s (y))',
-       'eventually_t': '(eventually%s(x))', 'always_t': '(always%s(x))', 'until_t': '((x) until%s (y))'}
+       'eventually_t': '(eventually%s(x))', 'always_t': '(always%s(x))', 'until_t': '((x) until%s (y))',
+       'unless_t': '((x) unless%s (y))'}
 
 
 def _f(op, a, b):
-    return (op, X, Y, a, b) if op in ('since_t', 'until_t') else (op, X, a, b)
+    return (op, X, Y, a, b) if op in ('since_t', 'until_t', 'unless_t') else (op, X, a, b)
 
 
 def h_spell(op, a, b, itext, unit, period, consts, mode, N):
@@ -98,7 +99,7 @@ def h_spell(op, a, b, itext, unit, period, consts, mode, N):
 
 
 def h_nonmultiple(op, itext, unit, period, mode):
-    vs = ['x', 'y'] if op in ('since_t', 'until_t') else ['x']
+    vs = ['x', 'y'] if op in ('since_t', 'until_t', 'unless_t') else ['x']
 
     def body(env):
         import rtamt
